@@ -69,6 +69,8 @@ fn c11_est<E: Est>(out: &mut Out, tier: &str, rng: &mut Rng) {
         if !out.next_case() { continue; }
         let before = words(a);
         let acc_a = acc_words(&a.accessors());
+        // clone is part of the histories: a clone carries exactly the state of the original
+        out.x(words(&a.clone()) == before, || format!("{}: clone() = {} differs from the original {}", E::NAME, words(&a.clone()), before));
         // a.merge(empty)
         let empty = E::new();
         let mut x = a.clone();
@@ -128,6 +130,7 @@ fn c11_pair<E: PairEst>(out: &mut Out, tier: &str, rng: &mut Rng) {
         if !out.next_case() { continue; }
         let before = words(a);
         let acc_a = acc_words(&a.accessors());
+        out.x(words(&a.clone()) == before, || format!("{}: clone() differs from the original", E::NAME));
         let empty = E::new();
         let mut x = a.clone(); x.merge(&empty);
         out.t(E::NAME, "merge", &before, &words(&empty), &words(&x));
@@ -161,6 +164,7 @@ fn c11_hist<H: Hst>(out: &mut Out, tier: &str, rng: &mut Rng) {
         let nb = rng.below(40);
         for _ in 0..nb { let _ = b.add_(rng.normal() * 2.0); }
         let (pa, pb) = (words(&a), words(&b));
+        out.x(words(&a.clone()) == pa, || format!("{}: clone() differs from the original", H::NAME));
         let mut x = a.clone(); x.merge_(&base);
         out.t(H::NAME, "merge", &pa, &words(&base), &words(&x));
         out.x(words(&x) == pa, || format!("{}: merging an empty histogram changed it", H::NAME));
